@@ -1,7 +1,7 @@
 ---------------------------- MODULE Gen_Unicode12 ----------------------------
 (* C12 input generation: TLC enumerates the ill-formed (and neighbouring well-formed) code-unit      *)
 (* strings and writes them as ndjson.  Parameters come from the environment:                          *)
-(*   KIND  u8x1 | u8x2 | u8r2 | u8c3 | u8o3 | u8c4 | u8long | u16 | u32                               *)
+(*   KIND  u8x1 | u8x2 | u8r2 | u8c3 | u8o3 | u8c4 | u8long | u8pair | u16 | u32                               *)
 (*   LO,HI first-unit (u8x2: byte value; class kinds: index into the representative list) shard range *)
 (*   OUT   output file                                                                                *)
 (* Every core string is emitted bare and embedded between valid neighbours (ASCII and multi-unit).    *)
@@ -25,6 +25,23 @@ Reps16 == <<\h0041, \h007F, \h0080, \h07FF, \h0800, \hD7FF, \hD800, \hDBFF, \hDC
 Reps32 == << <<0, \h41>>, <<0, \h7F>>, <<0, \h80>>, <<0, \h7FF>>, <<0, \h800>>, <<0, \hD7FF>>, <<0, \hD800>>, <<0, \hDBFF>>,
              <<0, \hDC00>>, <<0, \hDFFF>>, <<0, \hE000>>, <<0, \hFFFF>>, <<1, 0>>, <<\h10, \hFFFF>>, <<\h11, 0>>, <<\h11, \hFFFF>>,
              <<\h1F, \hFFFF>>, <<\h20, 0>>, <<\h7FFF, \hFFFF>>, <<\h8000, 0>>, <<\hFFFF, \hFFFF>>, <<\h4100, 0>>, <<\hD800, \hDC00>> >>
+
+\* --- (broken prefix, following well-formed character) pairs: a multi-byte sequence with a MISSING TAIL (every lead class incl. the
+\* extreme leads, 0 .. n-2 continuation bytes that are legal for that lead), or a byte that can never start a sequence, immediately
+\* followed by a well-formed sequence of every lead class incl. the extreme leads C2, DF, E0, ED, EF, F0, F4 and ASCII.
+\* The maximal-subpart / resynchronisation behaviour of a decoder is decided exactly here.
+BrokenPrefixes ==
+  << <<\hC2>>, <<\hDF>>,
+     <<\hE0>>, <<\hE0, \hA0>>, <<\hE1>>, <<\hE1, \h80>>, <<\hEC>>, <<\hEC, \hBF>>, <<\hED>>, <<\hED, \h9F>>,
+     <<\hEE>>, <<\hEE, \h80>>, <<\hEF>>, <<\hEF, \hBF>>,
+     <<\hF0>>, <<\hF0, \h90>>, <<\hF0, \h90, \h80>>, <<\hF1>>, <<\hF1, \h80>>, <<\hF1, \h80, \hBF>>,
+     <<\hF3>>, <<\hF3, \hBF>>, <<\hF3, \hBF, \h80>>, <<\hF4>>, <<\hF4, \h8F>>, <<\hF4, \h8F, \hBF>>,
+     <<\h80>>, <<\hBF>>, <<\hC0>>, <<\hC1>>, <<\hF5>>, <<\hF8>>, <<\hFF>>,
+     <<\hE0, \h80>>, <<\hED, \hA0>>, <<\hF0, \h80>>, <<\hF4, \h90>> >>
+Followers ==
+  << <<\h00>>, <<\h41>>, <<\h7F>>, <<\hC2, \h80>>, <<\hDF, \hBF>>, <<\hE0, \hA0, \h80>>, <<\hE1, \h80, \h80>>, <<\hEC, \hBF, \hBF>>,
+     <<\hED, \h80, \h80>>, <<\hED, \h9F, \hBF>>, <<\hEE, \h80, \h80>>, <<\hEF, \hBF, \hBF>>,
+     <<\hF0, \h90, \h80, \h80>>, <<\hF1, \h80, \h80, \h80>>, <<\hF3, \hBF, \hBF, \hBF>>, <<\hF4, \h80, \h80, \h80>>, <<\hF4, \h8F, \hBF, \hBF>> >>
 
 Idx(r) == {k \in DOMAIN r : k >= Lo /\ k <= Hi}
 All(r) == DOMAIN r
@@ -59,6 +76,7 @@ Cores ==
         <<\h80, \h80, \h80, \h80, \h80>>, <<\hF0, \h9F, \h98, \hF0, \h9F, \h98, \h80>>, <<\hE2, \h82, \hE2, \h82, \hAC>>,
         <<\hF4, \h8F, \hBF, \hBF, \hF4, \h90, \h80, \h80>>, <<\hED, \h9F, \hBF, \hED, \hA0, \h80, \hEE, \h80, \h80>>,
         <<\hEF, \hBB, \hBF, \hC0, \hAF>>, <<\hE0, \h9F, \hBF, \hE0, \hA0, \h80>>, <<\hF0, \h8F, \hBF, \hBF, \hF0, \h90, \h80, \h80>>}
+  ELSE IF Kind = "u8pair" THEN {BrokenPrefixes[a] \o Followers[b] : a \in DOMAIN BrokenPrefixes, b \in DOMAIN Followers}
   ELSE IF Kind = "u16" THEN
        {<<Reps16[a]>> : a \in Idx(Reps16)}
        \cup {<<Reps16[a], Reps16[b]>> : a \in Idx(Reps16), b \in All(Reps16)}
@@ -71,6 +89,7 @@ Cores ==
 
 Contexts ==
   IF Kind \in {"u8x1", "u8x2", "u8r2", "u8long"} THEN {Ctx8, Ctx8a, Ctx8m, Ctx8s}
+  ELSE IF Kind = "u8pair" THEN {Ctx8, Ctx8a}
   ELSE IF Kind \in {"u8c3", "u8o3"} THEN {Ctx8, Ctx8m}
   ELSE IF Kind = "u8c4" THEN {Ctx8, Ctx8a}
   ELSE IF Kind = "u16" THEN {Ctx16, Ctx16a, Ctx16m}
